@@ -144,6 +144,8 @@ func (t *intScalar) CoerceOut(v interface{}) (interface{}, error) {
 		var i int64
 		if i, err = strconv.ParseInt(tv, 10, 32); err == nil {
 			v = int32(i)
+		} else {
+			v = nil
 		}
 	default:
 		err = newCoerceErr(tv, "Int")
